@@ -332,6 +332,11 @@ func (m *Machine) runBlock(fr *frame) {
 				m.goPanicf("assignment to entry in nil map at %s", m.at(ins.Pos()))
 			}
 			k := m.get(fr, ins.Key)
+			if m.frozenMaps != nil {
+				if w, ok := m.frozenMaps[mp]; ok {
+					m.frozenWrites = append(m.frozenWrites, "map update of "+w+" at "+m.at(ins.Pos()))
+				}
+			}
 			mp.Set(m.keyString(k), k, copyVal(m.get(fr, ins.Value)))
 		case *ssa.Range:
 			m.set(fr, ins, m.rangeOp(m.get(fr, ins.X)))
@@ -343,6 +348,11 @@ func (m *Machine) runBlock(fr *frame) {
 			p := m.get(fr, ins.Addr).(*Value)
 			if p == nil {
 				m.goPanicf("nil pointer dereference (store) at %s", m.at(ins.Pos()))
+			}
+			if m.frozen != nil {
+				if w, ok := m.frozen[p]; ok {
+					m.frozenWrites = append(m.frozenWrites, "store to "+w+" at "+m.at(ins.Pos()))
+				}
 			}
 			storeInto(p, m.get(fr, ins.Val))
 		case *ssa.TypeAssert:
